@@ -26,6 +26,39 @@ def bft(c, name, rounds, binds=True, inv="Agreement", timeout=3000):
     return c.tlc("bft", "MCgen.cfg", module="MCgen", files=files, timeout=timeout, tag="KardiaBFT %s rounds=%d %s%s" %
                  (name, rounds, inv, "" if binds else " SigBindsType=FALSE"))
 
+def wrr(powers, n):
+    """weighted round-robin proposer sequence (the model is parametric in ProposerOf; any fair table will do)"""
+    pr = [0] * len(powers)
+    out = []
+    for _ in range(n):
+        pr = [a + b for a, b in zip(pr, powers)]
+        i = max(range(len(powers)), key=lambda k: (pr[k], -k))
+        pr[i] -= sum(powers)
+        out.append(i + 1)
+    return out
+
+KNET = {
+ # name: (powers, correct identities, Byzantine block ids)
+ "eq3+1":  ((1, 1, 1, 1), (1, 2, 3), '{"Z", "X"}'),
+ "w322+2": ((3, 2, 2, 2), (1, 2, 3), '{"Z"}'),
+ "eq4+1of5":  ((1, 1, 1, 1, 1), (1, 2, 3, 5), '{"Z"}'),
+}
+
+def knet(c, name, num, depth=120, inv=("Agreement", "Validity", "C03", "NeverLocksInvalid"), maxround=2, timeout=1500, seed=None):
+    """KardiaNet.tla: correct validators running the KardiaNode HANDLERS, asynchronous network, Byzantine validators with
+    < 1/3 of the power; weighted random walks (TLC -simulate)."""
+    powers, corr, bids = KNET[name]
+    blocks = " ELSE ".join('IF n = %d THEN "B%d"' % (i, i) for i in corr) + ' ELSE "B0"'
+    files = {"MCgen.tla": ("---- MODULE MCgen ----\nEXTENDS KardiaNet\nPowerV == [h \\in 1..2 |-> <<%s>>]\nPropV == << <<%s>> >>\n"
+                           "BlockV == [n \\in {%s} |-> %s]\n====\n") % (
+                 ", ".join(map(str, powers)), ", ".join(map(str, wrr(powers, 4 * len(powers)))), ", ".join(map(str, corr)), blocks),
+             "MCgen.cfg": ("SPECIFICATION Spec\nCONSTANTS\n  N = %d\n  PowerAt <- PowerV\n  ProposerOf <- PropV\n  InvalidBids = {\"X\"}\n"
+                           "  SkipTimeoutCommit = FALSE\n  WaitForTxs = FALSE\n  Corr = {%s}\n  ByzBids = %s\n  BlockOf <- BlockV\n"
+                           "  MaxRound = %d\n  UseDie = TRUE\nCONSTRAINT Bounded\nVIEW View\n%s") % (
+                 len(powers), ", ".join(map(str, corr)), bids, maxround, "".join("INVARIANT %s\n" % i for i in inv))}
+    return c.tlc("node", "MCgen.cfg", module="MCgen", files=files, timeout=timeout, simulate="num=%d" % num, depth=depth,
+                 seed=(seed if seed is not None else c.seed * 1000 + 7), tag="KardiaNet %s walks %s" % (name, "+".join(inv)))
+
 def net_runs(c, cfgs, runs, prop_sigs):
     """Real network runs + trace validation.  prop_sigs: signature prefixes that count for this property."""
     import json
@@ -81,6 +114,18 @@ def run(c):
     if r.violated != "Agreement":
         raise Infra("KardiaBFT with SigBindsType=FALSE should violate Agreement")
     c.states -= 0
+    # layer 1b: the same question for the HANDLERS (KardiaNode.tla, which the replay binds to the code) in a network:
+    # weighted random walks; no FaultGuard - the deviation named in MC_NodeEnv is unreachable under the fault assumption
+    for name in (KNET if th else ("eq3+1", "w322+2")):
+        r = knet(c, name, (250 if th else 20))
+        if r.violated:
+            raise Infra("%s violated in the handler-level network model KardiaNet %s:\n%s" % (r.violated, name, c.tlc_tail(r, 120)))
+        if not r.ok:
+            raise Infra("TLC failed on KardiaNet %s: %s\n%s" % (name, r.error, c.tlc_tail(r)))
+    for inv in ("NoDecision", "NoLockCarried"):
+        r = knet(c, "eq3+1", 4000, inv=(inv,))
+        if r.violated != inv:
+            raise Infra("KardiaNet reachability companion %s was not violated within the walk budget (vacuous model?)" % inv)
     # the join: the per-validator obligations hold for the real handlers (C03's binding, reduced scale here),
     # and a commit is accepted as justifying a block only with +2/3 for-block precommits (C02's VerifyCommit
     # enumeration for one vector) — block sync adopts a block exactly when VerifyCommit accepts its commit
@@ -101,6 +146,9 @@ def run(c):
     g = c.gotest("voteset", "TestCommit", env=dict(VS_DUMP=d, VS_POWER="1,1,1,1"), timeout=1200, tag="join: VerifyCommit enumeration")
     c.absorb(g)
     os.remove(d)
+    # the block-sync clause: a node that catches up by block sync only adopts blocks correct validators committed
+    import checks.blocksync as bs
+    bs.run_part(c)
     # layer 2
     cfgs = ["4eq-byz", "4w-byz", "4eq-byz2"] + (["5w-byz", "7eq-byz2", "3eq-nobyz", "4eq-calm"] if th else ["7eq-byz2"])
     net_runs(c, cfgs, 40 if th else 5, ("net:agreement", "net:panic"))
